@@ -103,7 +103,7 @@ def run(ctx, mod):
     # only the first few distinct new failures are reported
     seen = set()
     for f in new_real:
-        sig = f.key or f.detail[:60]
+        sig = f.key or (str(f.on_impl)[:40] if f.on_impl else f.detail[:60])
         if sig in seen:
             continue
         seen.add(sig)
